@@ -79,6 +79,8 @@ pub struct JavaState {
     pub previews_chat: Option<bool>,
     pub enforces_secure_chat: Option<bool>,
     pub extra_member: bool,
+    /// a null description is sent as no member at all
+    pub description_left_out: bool,
 }
 
 fn js(t: &mut Tape, max: usize) -> String {
@@ -92,11 +94,15 @@ impl JavaState {
             let n = gen::count(t, 12);
             (0 .. n).map(|_| (js(t, 16), gen::word(t, 36))).collect()
         });
-        let description = match t.draw(DATA, 3) {
-            0 => Value::String(js(t, 60)),
-            1 => json!({"text": js(t, 40)}),
+        let description = match t.draw(DATA, 8) {
+            0 | 1 => Value::String(js(t, 60)),
+            2 | 3 => json!({"text": js(t, 40)}),
+            // no description (the member left out, or an explicit null): what is returned must still be
+            // "nothing", not some text
+            4 => Value::Null,
             _ => json!({"text": js(t, 10), "extra": [{"text": js(t, 10), "color": "red", "bold": true}]}),
         };
+        let description_left_out = description.is_null() && t.draw(DATA, 2) == 0;
         Self {
             version_name: js(t, 24),
             protocol: gen::i32_(t),
@@ -110,6 +116,7 @@ impl JavaState {
             previews_chat: opt(t).then(|| gen::bool_(t)),
             enforces_secure_chat: opt(t).then(|| gen::bool_(t)),
             extra_member: opt(t),
+            description_left_out,
         }
     }
 
@@ -123,6 +130,9 @@ impl JavaState {
             "players": players,
             "description": self.description,
         });
+        if self.description_left_out {
+            v.as_object_mut().unwrap().remove("description");
+        }
         if let Some(f) = &self.favicon {
             v["favicon"] = json!(f);
         }
